@@ -480,6 +480,20 @@ pub fn c04(out: &mut Vec<String>, rng: &mut Rng, tier: &str) {
             out.push(unpaired_case::<f64>("C04", rand_conf(rng), &xs, &ys));
         }
     }
+    // balanced samples (equal sizes, equal spreads: the second is a shifted, reversed copy of the first):
+    // the effective dof is at its maximum n_a + n_b
+    for n in (2..40usize).step_by(if tier == "thorough" { 1 } else { 3 }) {
+        let xs: Vec<f64> = (0..n).map(|_| rng.range(-50, 50) as f64).collect();
+        let sh = rng.range(-20, 20) as f64;
+        let ys: Vec<f64> = xs.iter().rev().map(|x| x + sh).collect();
+        out.push(unpaired_case::<f64>("C04", rand_conf(rng), &xs, &ys));
+        let (xf, yf): (Vec<f32>, Vec<f32>) = (xs.iter().map(|x| *x as f32).collect(), ys.iter().map(|x| *x as f32).collect());
+        out.push(unpaired_case::<f32>("C04", rand_conf(rng), &xf, &yf));
+        // nearly balanced: one more observation on one side
+        let mut zs = ys.clone();
+        zs.push(sh);
+        out.push(unpaired_case::<f64>("C04", rand_conf(rng), &xs, &zs));
+    }
     for i in 0..(if tier == "thorough" { 200 } else { 40 }) {
         let k = rng.range(0, 9) as usize;
         let pre: Vec<(f64, f64)> = (0..k).map(|_| (rng.unit() * 8.0, rng.unit() * 8.0)).collect();
